@@ -129,4 +129,26 @@ theorem filterMap_congr_mem {α β} (f g : α → Option β) (l : List α) (h : 
     have hl := ih (fun x hx => h x (List.mem_cons_of_mem _ hx))
     simp [List.filterMap_cons, ha, hl]
 
+/-- the frame `Publisher.__call__` builds -/
+theorem frame_eq (pfx name payload : Bytes) : frame pfx name payload = pfx ++ 32 :: (name ++ 32 :: payload) := by
+  simp [frame, joinParts, joinSep, pyJoin, partOf]
+
+theorem mkPublisher_some {δ} {pfx : Bytes} {dumps : δ → Bytes} {p : Publisher δ}
+    (h : mkPublisher pfx dumps = some p) : p.pfx = pfx ∧ p.dumps = dumps ∧ 32 ∉ pfx := by
+  unfold mkPublisher at h
+  split at h
+  · cases h
+  · rename_i hr
+    cases h
+    simp [publisherRejects] at hr
+    exact ⟨rfl, rfl, hr⟩
+
+/-- every DocumentNames member is space-free, valid UTF-8 -/
+theorem documentNames_ok : ∀ n ∈ documentNames, 32 ∉ n ∧ validUtf8 n = true := by
+  decide
+
+theorem fail_cases {δ} (cfg : Dispatcher δ) (s : Stage) :
+    (fail cfg s = .raise s ∧ cfg.strict = true) ∨ (fail cfg s = .drop s ∧ cfg.strict = false) := by
+  cases hs : cfg.strict <;> cases s <;> simp [fail, onFailure, hs]
+
 end BlueskyVerif.Zmq
